@@ -136,8 +136,9 @@ def keys(ctx, branches):
                 falsy = d is not None and d[0] == "const" and not d[1]
                 if cls in ("Circle", "Ellipse") and k in ("rx", "ry", "r"):
                     # the round-shape reader falls back to 1 when neither r nor rx/ry is present
-                    rs = ast.unparse(ctx.m.func("_RoundShape.property_by_values"))
-                    if "self.rx = 1" in rs or "self.ry = 1" in rs:
+                    rsf = ctx.m.func("_RoundShape.property_by_values")
+                    if any(isinstance(a, ast.Assign) and attr_chain(a.targets[0]) in (["self", "rx"], ["self", "ry"]) and isinstance(a.value, ast.Constant) and a.value.value == 1
+                           for a in ast.walk(rsf)):
                         falsy = False
                 ctx.ob("R20.2", "_write_node[%s %s skipped when falsy]" % (cls, k), falsy, "guard `if %s`; reader default %s" % (guard[1], d), ln,
                        "a zero value is omitted by the writer but the reader's default for the missing key is not zero: the shape comes back with the default")
